@@ -83,6 +83,15 @@ CHECKS["C14"] = ("exploration",
     "Exploration: the spec is generator and referee of outcomes, not a numeric oracle; sampled.",
     "§4 C14")
 
+CHECKS["C08"] = ("model_checking",
+    "BankNames/NameRules state which byte strings every name and board parser accepts and what they denote; MC_Names visits every documented name with a ring of near misses (replacements, insertions, deletions) and checks accepted-iff-documented, parser nesting and injectivity, and every visited string is replayed through the real parsers. Trace_Names then validates exhaustive sweeps of the finite domains: all 128^4 ASCII 4-byte strings against 13 parsers, every u8/u16/char/usize id conversion, device ids (all 2^32 in the thorough tier), every MAC perturbed byte-wise, the wire and pad maps for every run 0..20000 and 2^32-1, 2^32-2 as run-length segments (boundaries exactly at 2941/4418/10418, bijections onto 256 wires / 18432 pads, simulation = run 5000), and the wire <-> pad-column association (hook H2) against Ring.tla's geometry.",
+    "Trusted: board tables as recorded through the public API (structural facts asserted, not literal values); run thresholds as spec constants from the code's documentation.",
+    "§4 C08")
+CHECKS["C01"] = ("model_checking",
+    "Guard ladders (MC_Adc with a saturating maximum, MC_Ladders for chunk / PWB / name slicing) show at design level that no subtraction or slice on a wire-controlled quantity can trap once the preceding guards passed. On the implementation, in BOTH cargo profiles, the decision-table cells and the systematic / random / mutational drivers of C02-C07 (every single-bit flip and byte extreme of valid packets, every length 0..80, counters at 0/1/max), chunk lists with faults, FIFO streams under cuts, all 128^4 ASCII names, odd-length and non-ASCII strings and every id conversion are run; any panic, abort or hang outcome has no action in the Trace_* specs.",
+    "Totality is decided by exploration tied to the enumerated decision tables, not by proof; a 60 s watchdog stands for 'loops without progress'.",
+    "§4 C01")
+
 NOT_APPLICABLE = {
     "C12": "population statistics of a floating-point pipeline against a physical forward model; TLA+/TLC has no reals or floats, so the spec cannot be the oracle",
     "C16": "decisive clause is a floating-point global minimisation over a continuum; only a numeric brute force could referee it, which is a different technique",
